@@ -20,5 +20,9 @@ AlgQuoteOK == \A i \in DOMAIN ss : QuoteOK(ss[i], AlgQuote(ss[i]))
 AlgJoinOK ==
   LET j == AlgJoin(ss) r == Lex(j)
   IN  r.toks = ss /\ r.complete /\ Eval(j).words = ss /\ Eval(j).exposed = {}
+\* the linear-time evaluation equals the defining one: on the quoting algorithm's outputs and on the raw strings
+EvalFastOK ==
+  /\ EvalF(AlgJoin(ss)) = Eval(AlgJoin(ss))
+  /\ \A i \in DOMAIN ss : EvalF(ss[i]) = Eval(ss[i]) /\ EvalF(AlgQuote(ss[i])) = Eval(AlgQuote(ss[i]))
 EmitInput == PrintT(ToJson([ss |-> ss]))
 =============================================================================
